@@ -82,6 +82,10 @@ def _transform_parallel(
     for w in workers:
         w.join()
 
+    from .par_util import check_workers_succeeded
+
+    check_workers_succeeded(workers, "the parallel transform")
+
 
 def _transform_mp_worker(queue, done_event, pio_in, pio_out, make_buf, do_one):
     """
